@@ -49,6 +49,12 @@ def val(st, v):
     return [('val', st, v)]
 
 
+def _trusted(E, text):
+    """record the use of a trusted lemma schema: it then appears among the assumptions of the unit's evidence"""
+    if E.registry is not None:
+        E.registry.used.add('TRUSTED LEMMA (ground instance of a textbook theorem): ' + text)
+
+
 # ---------------------------------------------------------------- values of Integer objects
 
 def int_value(st, x):
@@ -121,6 +127,7 @@ def _p256(E, st, ln):
 
 
 def sf_be_split(E, st, args, kw):
+    _trusted(E, 'be(s[:j]) == be(s[:i]) * 256**(j-i) + be(s[i:j]) for 0 <= i <= j <= len(s)')
     """be_split(s, i, j): 0 <= i <= j <= len(s) ==> be(s[:j]) == be(s[:i]) * 256**(j - i) + be(s[i:j])   (be_cat on prefixes: no
     concatenation term for the solver to match)"""
     sv, i, j = args
@@ -136,6 +143,7 @@ def sf_be_split(E, st, args, kw):
 
 
 def sf_be_zeros(E, st, args, kw):
+    _trusted(E, "be(b'\\\\x00' * n) == 0")
     """be(b'\\x00' * n) == 0"""
     z = zbytes(ops.replicate(E, b'\x00', args[0], st))
     t = models.be_value(E, st, z) == 0
@@ -155,6 +163,7 @@ def _be_term(E, st, zs):
 
 
 def sf_be_cat(E, st, args, kw):
+    _trusted(E, 'be(a ++ b) == be(a) * 256**len(b) + be(b)')
     a, b = (zbytes(x) for x in args)
     lb = models.seq_length(E, st, b)
     t = models.be_value(E, st, z3.Concat(a, b)) == _be_term(E, st, a) * _p256(E, st, lb) + _be_term(E, st, b)
@@ -163,6 +172,7 @@ def sf_be_cat(E, st, args, kw):
 
 
 def sf_be_lt(E, st, args, kw):
+    _trusted(E, 'be(b) < 256**len(b)')
     b = zbytes(args[0])
     t = models.be_value(E, st, b) < ops.pow2(E, st, 8 * models.seq_length(E, st, b))
     st.fact(t)
@@ -170,6 +180,7 @@ def sf_be_lt(E, st, args, kw):
 
 
 def sf_pow2_add(E, st, args, kw):
+    _trusted(E, '2**(a+b) == 2**a * 2**b for a, b >= 0')
     a, b = (zint(x) for x in args)
     t = z3.Implies(z3.And(a >= 0, b >= 0), ops.pow2(E, st, a + b) == ops.pow2(E, st, a) * ops.pow2(E, st, b))
     st.fact(t)
@@ -177,6 +188,7 @@ def sf_pow2_add(E, st, args, kw):
 
 
 def sf_mulmod_reduce(E, st, args, kw):
+    _trusted(E, '((a mod m)(b mod m)) mod m == (a b) mod m for m > 0')
     a, b, m = (zint(x) for x in args)
     t = z3.Implies(m > 0, ((a % m) * (b % m)) % m == (a * b) % m)
     st.fact(t)
@@ -184,6 +196,7 @@ def sf_mulmod_reduce(E, st, args, kw):
 
 
 def sf_modpow_reduce(E, st, args, kw):
+    _trusted(E, '(b mod m)**e mod m == b**e mod m for m > 0')
     b, e, m = (zint(a) for a in args)
     t = z3.Implies(m > 0, models.MODPOW(b % m, e, m) == models.MODPOW(b, e, m))
     st.fact(t)
